@@ -353,10 +353,11 @@ DT_TYPES = tuple(DT_RE)
 
 class DT:
     """a date/time value: fields may be None when the type has no such field; tz in minutes or None"""
-    __slots__ = ('kind', 'y', 'mo', 'd', 'h', 'mi', 's', 'tz', 'h24')
+    __slots__ = ('kind', 'y', 'mo', 'd', 'h', 'mi', 's', 'tz', 'h24', 'z')
 
-    def __init__(self, kind, y=None, mo=None, d=None, h=None, mi=None, s=None, tz=None, h24=False):
+    def __init__(self, kind, y=None, mo=None, d=None, h=None, mi=None, s=None, tz=None, h24=False, z=False):
         self.kind, self.y, self.mo, self.d, self.h, self.mi, self.s, self.tz, self.h24 = kind, y, mo, d, h, mi, s, tz, h24
+        self.z = z            # time zone written as 'Z' (only used by the HOUR24_NOT_ROLLED diagnosis)
 
     def key(self):
         return (self.kind, self.y, self.mo, self.d, self.h, self.mi, self.s, self.tz)
@@ -402,7 +403,7 @@ def parse_datetime(kind, s):
     tz, ok = _parse_tz(tzs)
     if not ok:
         return None
-    v = DT(kind, tz=tz)
+    v = DT(kind, tz=tz, z=(tzs == 'Z'))
     if kind in ('dateTime', 'date', 'gYearMonth', 'gYear'):
         v.y = _parse_year(g.pop(0))
         if v.y is None:
@@ -455,7 +456,7 @@ HOUR24_NOT_ROLLED = False        # diagnosis only: hour 24 stays on its day when
 
 def dt_timeline(v, tz_default=None):
     """seconds on the time line of the starting instant (Fraction); tz_default minutes used when v has no time zone"""
-    if HOUR24_NOT_ROLLED and v.h24 and v.tz in (None, 0):
+    if HOUR24_NOT_ROLLED and v.h24 and (v.tz is None or v.z):
         v2 = DT(v.kind, v.y, v.mo, v.d, v.h, v.mi, v.s, v.tz, False)
         return dt_timeline(v2, tz_default) - Fraction(1, 10 ** 12)      # after every instant of its day, before the next midnight
     y = v.y if v.y is not None else _REF['y']
